@@ -109,6 +109,12 @@ def _worker_init():
 def _worker(job):
     prop, profile, seed, tier, gopts, mopts = job
     try:
+        if profile == 'C10':
+            from . import c10
+            return c10.run_seed(seed, tier, gopts)
+        if profile == 'C03':
+            from . import c03
+            return c03.run_seed(seed, tier, gopts)
         plan = gen.gen(profile, seed, tier, gopts)
         if profile == 'C06':
             res = check_c06(plan, mopts)
